@@ -95,6 +95,45 @@ func genC04(c *Ctx) {
 		n = 1500
 	}
 	h := crypto.NewExpandMsgXOFKMAC128("agg")
+	// call histories: the public key of an aggregated private key, and the signatures it makes, must not depend on which
+	// of the input keys had their own public key computed before the aggregation (every subset, lists of 2..4 keys)
+	for n := 2; n <= 4; n++ {
+		for mask := 0; mask < 1<<n; mask++ {
+			ks := make([]*big.Int, n)
+			for i := range ks {
+				ks[i] = c.randScalar()
+			}
+			m := mask
+			c.Case("agg-sk-pk-history", "agg.pk "+scalarsLine(ks), guard(func() string {
+				sks := make([]crypto.PrivateKey, n)
+				pks := make([]crypto.PublicKey, n)
+				for i := range sks {
+					sks[i] = skFromInt(ks[i])
+					if m>>i&1 == 1 {
+						_ = sks[i].PublicKey() // touch: this input's public key is computed before the aggregation
+					}
+					pks[i] = skFromInt(ks[i]).PublicKey()
+				}
+				agg, err := crypto.AggregateBLSPrivateKeys(sks)
+				if err != nil {
+					return "err " + errClass(err)
+				}
+				pk := agg.PublicKey()
+				aggPk, err := crypto.AggregateBLSPublicKeys(pks)
+				if err != nil {
+					return "err " + errClass(err)
+				}
+				if !pk.Equals(aggPk) {
+					return "ok " + hx(pk.Encode()) + " differs-from-aggregated-public-keys"
+				}
+				sig, _ := agg.Sign([]byte("m"), h)
+				if ok, _ := aggPk.Verify(sig, []byte("m"), h); !ok {
+					return "ok " + hx(pk.Encode()) + " signature-of-aggregated-key-rejected"
+				}
+				return "ok " + hx(pk.Encode())
+			}))
+		}
+	}
 	// private-key aggregation on limb boundaries: every ordered pair of the pool, and sampled triples
 	{
 		pool := limbScalars()
